@@ -194,9 +194,19 @@ def gen(tier, rng):
             if warm != col:
                 fields = [[k, "{v}"] for k in ["", "a", "abc", "k" * 9, "k" * 17]]
                 yield {"fmt": mkfmt(" ", col, "\n", False), "blocks": [["entry", "a", "k", fields, "r"]], "warm": warm}
+    # one LIBRARY object written twice, its entries edited in between (same number of blocks): the second text is that of
+    # the library as it is now
+    for col in ("auto", 0, 12):
+        for prevkeys in (["k" * 20], ["a"], [], ["k" * 5, "k" * 30]):
+            for keys in (["abc", "k" * 9], ["a"], ["k" * 25, "b"], []):
+                yield {"fmt": mkfmt(" ", col, "\n", False),
+                       "blocks": [["entry", "a", "k", [[k, "{v}"] for k in keys], "r"], ["entry", "a", "k2", [["x", "{y}"]], "r"]],
+                       "prev": [[[k, "{v}"] for k in prevkeys], [["x", "{y}"]]]}
     for _ in range(60000 if tier == "quick" else 500000):
         bl = [_rand_block(rng) for _ in range(rng.choice([0, 1, 1, 2, 2, 3, 3, 4, 5, 7]))]
         c = {"fmt": _rand_fmt(rng), "blocks": bl}
+        if rng.random() < 0.04:
+            c["prev"] = [_rand_entry(rng)[3] for d in bl if d[0] == "entry"]
         if rng.random() < 0.05:
             c["warm"] = rng.choice([0, 3, 11, 25, "auto"])
         if bl and rng.random() < 0.1:
@@ -236,10 +246,33 @@ def request(case):
     return wire_request("c06.write", fmt_sx(case["fmt"]), W.enc_items(lib.blocks), chars_of=txt)
 
 
+def _prewrite(lib, case, F):
+    """the same Library OBJECT was written before with the same format while its entries held other fields (a caller edits
+    entries between two writes): nothing remembered from the earlier write may reach the later one"""
+    from bibtexparser import writer
+    from bibtexparser import model as M
+    prev = case.get("prev")
+    if prev is None:
+        return
+    ents = [b for b in lib.blocks if isinstance(b, M.Entry)]
+    saved = [list(e.fields) for e in ents]
+    for e, fs in zip(ents, prev):
+        e.fields = [M.Field(k, v) for k, v in fs]
+    try:
+        writer.write(lib, F)
+    except RecursionError:
+        raise
+    except Exception:  # noqa
+        pass
+    for e, fs in zip(ents, saved):
+        e.fields = fs
+
+
 def impl(case):
     from bibtexparser import writer
     lib = W.build_library(case["blocks"], case.get("same_line", False))
     F = build_fmt(case["fmt"])
+    _prewrite(lib, case, F)
     if "warm" in case:
         # the same format object was used before with another column (state must not leak between writes)
         F.value_column = case["warm"]
@@ -307,6 +340,7 @@ def oracle(case):
     lib = W.build_library(case["blocks"], case.get("same_line", False))
     f = case["fmt"]
     F = build_fmt(f)
+    _prewrite(lib, case, F)
     if "warm" in case:
         F.value_column = case["warm"]
         writer.write(lib, F)
